@@ -39,6 +39,11 @@ def corpus(tier):
         cases.append({'id': 'pendexit:' + q['id'], 'src': q['src'], 'verify': True, 'feature': 'pendexit'})
         # verified a second time without being run: a mis-compiled exit may make the program loop for ever, and a case that times out tells nothing
         cases.append({'id': 'pendexit-static:' + q['id'], 'src': q['src'], 'verify': True, 'feature': 'pendexit', 'norun': True})
+    # generators whose resumption is refused at the recursion limit and that are used again afterwards (depths at run time vs predicted)
+    import c05
+    for k_, v_ in c05.LIMIT_VARIANTS.items():
+        cases.append({'id': 'limit:' + k_, 'src': v_, 'verify': True, 'feature': 'limit'})
+    cases.append({'id': 'limit:expr', 'src': c05.LIMIT_PROG.replace('        x = yield i\n', '        x = 10 + (yield i)\n'), 'verify': True, 'feature': 'limit'})
     for q in pendexit.outside_loop_programs():
         cases.append({'id': 'noloop:' + q['id'], 'src': q['src'], 'verify': True, 'feature': 'noloop', 'norun': True})
     # definition forms: what MAKE_FUNCTION / MAKE_CLOSURE / LOAD_BUILD_CLASS find on the stack - decorators x positional defaults x keyword-only
